@@ -246,11 +246,17 @@ def run(chk):
                        "loops incl. zero-trip/negative step, DO WHILE bounded by a counter (8% of statements), nesting <=3; 30% "
                        "of the routines also contain expression CodeBlocks (array constructors with implied DO) and "
                        "statement CodeBlocks (FORALL, PRINT), 25% use members of a structure (g%d(i), g%n), 20% call an "
-                       "external subroutine of unknown intent, inner loop bounds may depend on outer loop variables, "
-                       "same-element write-then-read pairs); for regions with a CodeBlock or a call: real lists vs. the model "
-                       "in which CodeBlocks contribute no access, ExtractTrans accept/refuse vs. RegionData.extractTrans "
-                       "on every such region, property by the gfortran replay oracle (all ACCEPTED ones up to a cap, "
-                       "a sample of the refused ones); non-trivial = region with >=1 write and "
+                       "external subroutine of unknown intent (35% of those calls directly after an element write to the "
+                       "array they pass), 25% are routines of a MODULE that call pure / impure subroutines of the same "
+                       "module with a positional prefix and keyword actuals in random order (optional dummy mostly skipped), "
+                       "inner loop bounds may depend on outer loop variables, same-element write-then-read pairs); calls are "
+                       "exported as RStmt.code (access list by the harness's own keyword matching, body = inlined callee) and "
+                       "executed by the model; for regions with a CodeBlock: real lists vs. the model in which a CodeBlock is "
+                       "READWRITE of its names, ExtractTrans accept/refuse vs. RegionData.extractTrans on every such "
+                       "region, property by the gfortran replay oracle (all ACCEPTED ones up to a cap, a sample of the "
+                       "refused ones).  FAMILY 1b (systematic, every run): R.call_matrix() = every library subroutine x every "
+                       "positional-prefix length x every order of the keyword actuals x optional dummy present/skipped (67 "
+                       "routines, regions [call] and [whole body]).  non-trivial = region with >=1 write and "
                        ">=2 variables; distinct by (source, region).  FAMILY 2: LFRic invokes of 2-3 synthesised kernels reading / "
                        "writing-first / read-modifying / conditionally writing 1-3 variables (3 scalars, 1 array) of a shared "
                        "module, every call order, wrapped by the real LFRicExtractTrans (collect_non_local_symbols); "
@@ -263,7 +269,12 @@ def run(chk):
         "module-variable family: kernels are synthesised from abstract statement lists; the inlined region executes "
         "one representative element of the field update; fields f1/f2 stand for f1_data/f2_data of the real lists",
         "regions containing CodeBlocks are executed by gfortran (-fcheck=bounds -ftrapv): program up to the region, "
-        "every non-input scalar shifted by 1 and array by 1000, region, print all variables",
+        "every non-input scalar shifted by 1 and array by 1000, region, print all variables (the model is given `skip` "
+        "as the code of a CodeBlock: only its access list is compared)",
+        "calls: the callee body (assignments over dummies) is inlined with the actuals substituted textually; an "
+        "expression actual bound to an intent(in) dummy is re-evaluated at each use (differs from Fortran only for "
+        "calls that alias an intent(in) actual with a modified one, which Fortran forbids); RegionData.covered is "
+        "checked by the driver for every executed region",
         "DO WHILE semantics: RegionData.rexec with an iteration bound (2000 in the drivers) that no generated loop "
         "reaches (every generated loop is bounded by `w > 0 .and. w < 4` with w decremented last)",
         "region execution uses the MiniF semantics (lean/PsyVerif/Model/MiniF.lean, validated against gfortran "
